@@ -66,6 +66,8 @@ RULE = (
     "predict-type op in between; pool: two queries on different data "
     "sets; stream: an update followed by a later query (strategies with a "
     "classifier: on another training set).")
+RULE += (" Further generated dimensions (added while closing seeded "
+         "changes): " + 'set_params between two fits (window_size, only_labeled, n_neighbors, class_prior); wrappers around an estimator the caller trained already (constructor estimator must stay untouched); histories mixing weighted and unweighted calls' + ".")
 ASSUMPTIONS = [
     "random_state is an int everywhere (estimator, wrapped estimators, "
     "mixture models, KMeans), so both sides of every comparison are "
